@@ -110,6 +110,8 @@ def render_doc_locs(doc, order=None):
             t = head + _render_sels(children, pos + len(head), locs)
         out.append(t)
         pos += len(t)
+    for raw in doc.get("extra", ()):  # raw definition texts (type-system definitions)
+        out.append(raw)
     return "\n".join(out), locs
 
 
@@ -167,16 +169,17 @@ def typed_nodes(sm, doc):
             if s[0] == "f":
                 if s[5] is not None and parent is not None:
                     fd = S.fields_of(sm, parent).get(s[1]) if S.kind_of(sm, parent) in ("object", "interface") else None
-                    rec(s[5], S.named_of(S.parse_type(fd["type"])) if fd else None)
+                    named = S.named_of(S.parse_type(fd["type"])) if fd else None
+                    rec(s[5], named if named and S.is_composite(sm, named) else None)
                 elif s[5] is not None:
                     rec(s[5], None)
             elif s[0] == "i":
-                rec(s[3], s[1] or parent)
+                rec(s[3], (s[1] if S.is_composite(sm, s[1]) else None) if s[1] else parent)
 
     for op in doc["ops"]:
         rec(op["sels"], sm.get(op.get("kind", "query")))
     for fr in doc.get("frags", []):
-        rec(fr[3], fr[1] if fr[1] in sm["types"] else None)
+        rec(fr[3], fr[1] if S.is_composite(sm, fr[1]) else None)
     return out
 
 
@@ -474,6 +477,8 @@ def deviations(sm, doc, min_pos=0):
             fd = S.fields_of(sm, parent).get(s[1]) if s[1] != "__typename" else None
             if fd and fd["args"]:
                 for an, a in fd["args"].items():
+                    if "$" in s[4].get(an, ""):
+                        continue  # replacing a variable would leave it unused
                     for j, var in enumerate(ARG_VARIANTS.get(a["type"], ())):
                         yield ("arg:%s:%s" % (a["type"], var[0]), pos, an, j)
         if kind in ("f", "i"):
@@ -486,7 +491,10 @@ def deviations(sm, doc, min_pos=0):
             for tc in tcs:
                 if tc != parent:
                     yield ("frag-on:%s" % _tc_class(sm, parent, tc), pos, tc)
+        have = {d[0] for d in (s[3] if kind == "f" else s[2])}
         for dv in DIR_VARIANTS:
+            if have & {d[0] for d in dv[1]}:
+                continue  # a directive may appear once per location
             yield ("dir:%s:%s" % ({"f": "field", "i": "inline", "s": "spread"}[kind], dv[0]), pos, dv[0])
         if kind == "f":
             # directive on a wrapping inline fragment / on a wrapping spread (single step)
